@@ -1318,7 +1318,20 @@ def r07_19_unparsed_fields_come_from_the_template(ctx: Ctx) -> RuleResult:
             n_sites += 1
             rr.inst()
             v = inline_locals(g.node, n.value)
-            absyear = [x for x in ast.walk(v) if isinstance(x, ast.Attribute) and x.attr == "year"]
+            # everything that flows into the added quantity: the values of the locals it names, transitively (a local that is
+            # assigned and then adjusted in place, like the century, is not inlined)
+            exprs, seen_names, work = [v], set(), [x.id for x in ast.walk(v) if isinstance(x, ast.Name)]
+            while work:
+                nm = work.pop()
+                if nm in seen_names:
+                    continue
+                seen_names.add(nm)
+                for m in own_nodes(g.node):
+                    tg = [m.target] if isinstance(m, (ast.AugAssign, ast.AnnAssign)) else (m.targets if isinstance(m, ast.Assign) else [])
+                    if any(isinstance(t, ast.Name) and t.id == nm for t in tg) and getattr(m, "value", None) is not None:
+                        exprs.append(m.value)
+                        work += [x.id for x in ast.walk(m.value) if isinstance(x, ast.Name)]
+            absyear = [x for e_ in exprs for x in ast.walk(e_) if isinstance(x, ast.Attribute) and x.attr == "year"]
             if absyear:
                 rr.fail(g.qual, f"`{unparse(n)[:70]}` adds a quantity computed from `{unparse(absyear[0])}` (an absolute year) to a year of era: for a template before the common era the century is negative and the two-digit year lands in the wrong era", ctx.loc(g, n))
             else:
